@@ -7,7 +7,10 @@ What is proved for ALL inputs: `C16_complete` for the whole batch loop (`recover
 applyFound, every window, every chain satisfying the look-ahead hypothesis, every set of invalid children, every batch
 size, every set of resume points), `C16_complete_resumed` (a later recovery over an extended chain, possibly with
 another window, recovered outputs possibly leased or spent by unmined transactions at the restart; the code before
-50a099b missed spends of such outputs, `C16_resumed_misses_spend_of_hidden_output`), the branch-horizon clause (every window, every set of invalid children, every reachable branch
+50a099b missed spends of such outputs, `C16_resumed_misses_spend_of_hidden_output`), runs that END EARLY and are
+resumed (`C16_complete_interrupted`, `C16_complete_lock_interrupted`: wallet locked / unlock timeout / Stop while the
+block loop runs; `C16_complete_after_failed_batch`: FilterBlocks failing inside a batch, then a process restart), the
+branch-horizon clause (every window, every set of invalid children, every reachable branch
 state, also after Resurrect) and the birthday clauses (every timestamp sequence, birthday, delta).
 Proofs: Lemmas/RecoveryLoop.lean (filter, horizon, extendFound, addRelevantTx) and Lemmas/RecoveryComplete.lean
 (loop invariant `PInv`/`MInv`, blocks, batches, Resurrect).
@@ -29,6 +32,7 @@ Locked/unlocked: the model has no lock state because the real recovery
 behaves identically in both (compared by the engine), so the theorem covers both.
 -/
 import BtcwVerif.Lemmas.RecoveryComplete
+import BtcwVerif.Lemmas.RecoveryInterrupt
 namespace Recovery
 
 /-- After `expandScopeHorizons` every valid child index below `nextUnfound + window` is watched, at least `window`
@@ -132,6 +136,80 @@ theorem C16_recover_leaves_pinv (invalid : BranchId → List Nat) (W batchSize :
     PInv scopes c c (recover invalid W batchSize scopes c cuts) :=
   (recover_inv hwf hla batchSize cuts).1
 
+/-! ### Interrupted-and-resumed recoveries
+
+A run of `Wallet.recovery` can end early: the wallet is locked (`Wallet.Lock`, the unlock timeout) or stopped while
+the block loop is running (`endRecovery` sets the quit flag, looked at once per height), or `FilterBlocks` fails inside
+a batch.  What is on disk then is what the batches completed before committed — the sync point is stored in the SAME
+database transaction as the batch's findings — i.e. the result of a run over a prefix `c.take n` of the chain
+(`recoverInterrupted`, `recoverChainFail`).  The next run (`syncWithChain` retried, or the wallet reopened) starts
+above the stored sync point through `Resurrect`.  The conclusion of C16 holds for the final state, for every `n`. -/
+
+theorem LookAheadFrom.min_len {W : Nat} {scopes : List Nat} {n : Nat} {c : Chain} (h : LookAheadFrom W scopes n c) :
+    LookAheadFrom W scopes (min n c.length) c := by
+  intro pre hh blk post e hn
+  have hl : c.length = pre.length + (post.length + 1) := by rw [e]; simp
+  exact h pre hh blk post e (by omega)
+
+/-- C16 for a from-seed recovery (window `W`, any resume points `cuts`) that got through the first `n` blocks only —
+    whatever ended it — and is resumed later with window `W'` (any resume points `cuts'`): every used address is
+    found, every transaction recorded, credits and next indices right, for every well-formed chain satisfying the
+    look-ahead hypothesis (with `W` on the whole chain, with `W'` on the blocks above `n`; for `W' = W` the second
+    follows from the first, `LookAhead.from`). -/
+theorem C16_complete_interrupted (invalid : BranchId → List Nat) (W W' batchSize : Nat) (scopes : List Nat) (c : Chain)
+    (n : Nat) (cuts cuts' : Nat → Bool) (hwf : ChainWF scopes invalid c) (hla : LookAhead W scopes c)
+    (hla' : LookAheadFrom W' scopes n c) :
+    Complete scopes c
+      (recoverChain invalid batchSize ((c.drop n).length + 1)
+        (resurrect invalid { recover invalid W batchSize scopes (c.take n) cuts with window := W' })
+        (c.drop n) cuts' 0) := by
+  have e : c.take n ++ c.drop n = c := List.take_append_drop n c
+  have hwfp : ChainWF scopes invalid (c.take n) := ChainWF.prefix (q := c.drop n) (by rw [e]; exact hwf)
+  have hlap : LookAhead W scopes (c.take n) := LookAhead.prefix (q := c.drop n) (by rw [e]; exact hla)
+  have hp := C16_recover_leaves_pinv invalid W batchSize scopes (c.take n) cuts hwfp hlap
+  have h := C16_complete_resumed invalid W' batchSize scopes (c.take n) (c.drop n) cuts' _ hp (by rw [e]; exact hwf)
+    (by rw [e, List.length_take]; exact hla'.min_len)
+  rw [e] at h
+  exact h
+
+/-- Seed-C16-4 scenario.  The wallet is locked / its unlock timeout fires / it is stopped while `recovery()` fetches
+    the `k`-th block: the run ends before block `k+1`, the batches completed by then (`committedAt batchSize k`
+    blocks) are on disk (`recoverInterrupted`), and the recovery is resumed above them.  The final state is complete.
+    (What `syncWithChain` must NOT do is treat the interrupted run as finished and mark the wallet synced to the tip
+    after the ordinary rescan: the blocks above `committedAt batchSize k` would never be scanned with the look-ahead
+    window — oracle keys `*.interrupted-by-lock`, `*.interrupted-by-unlock-timeout`, `*.after-stop-interrupt`.) -/
+theorem C16_complete_lock_interrupted (invalid : BranchId → List Nat) (W batchSize : Nat) (scopes : List Nat) (c : Chain)
+    (k : Nat) (cuts cuts' : Nat → Bool) (hwf : ChainWF scopes invalid c) (hla : LookAhead W scopes c) :
+    Complete scopes c
+      (recoverChain invalid batchSize ((c.drop (committedAt batchSize k)).length + 1)
+        (resurrect invalid
+          { recoverInterrupted invalid batchSize (resurrect invalid (State.init W scopes)) c cuts k with window := W })
+        (c.drop (committedAt batchSize k)) cuts' 0) :=
+  C16_complete_interrupted invalid W W batchSize scopes c (committedAt batchSize k) cuts cuts' hwf hla (hla.from _)
+
+/-- Seed-C16-5 scenario.  `FilterBlocks` fails inside a batch (request number `target`), the process is stopped
+    before any in-process retry and restarted: on disk is what the EARLIER batches committed (`recoverChainFail`
+    returns that state and the number `n` of blocks it covers — the failed batch's transaction, which also holds the
+    batch's sync points, is rolled back), the new process resumes above block `n`.  The final state is complete.
+    (Committing the batch's sync points before the batch is scanned breaks exactly this — oracle keys
+    `*.after-failed-batch`.  The IN-PROCESS retry after a failed batch is outside the model: KNOWN-FINDING
+    retry-after-failed-batch.) -/
+theorem C16_complete_after_failed_batch (invalid : BranchId → List Nat) (W W' batchSize : Nat) (scopes : List Nat)
+    (c : Chain) (target : Nat) (st1 : State) (n : Nat) (cuts' : Nat → Bool)
+    (hf : recoverChainFail invalid batchSize target (c.length + 1) (resurrect invalid (State.init W scopes)) c 0 =
+      some (st1, n))
+    (hwf : ChainWF scopes invalid c) (hla : LookAhead W scopes c) (hla' : LookAheadFrom W' scopes n c) :
+    Complete scopes c
+      (recoverChain invalid batchSize ((c.drop n).length + 1) (resurrect invalid { st1 with window := W' })
+        (c.drop n) cuts' 0) := by
+  obtain ⟨m, hn, hm, hst⟩ := recoverChainFail_spec invalid batchSize target _ _ _ _ _ _ hf
+  rw [Nat.zero_add] at hn
+  subst hn
+  have hrec : st1 = recover invalid W batchSize scopes (c.take n) (fun _ => false) := by
+    rw [hst, recover, List.length_take, Nat.min_eq_left hm]
+  rw [hrec]
+  exact C16_complete_interrupted invalid W W' batchSize scopes c n (fun _ => false) cuts' hwf hla hla'
+
 /-- The hypotheses are decidable: `checkWF` / `checkLA` (run by the driver on every generated chain) imply them. -/
 theorem C16_complete_checked (invalid : BranchId → List Nat) (W batchSize : Nat) (scopes : List Nat) (c : Chain)
     (cuts : Nat → Bool) (h1 : checkWF scopes invalid c = true) (h2 : checkLA W scopes c = true) :
@@ -161,6 +239,27 @@ example : Complete [0] exChain
     (C16_recover_leaves_pinv exInvalid 2 1 [0] (exChain.take 1) (fun _ => false)
       (checkWF_sound _ _ _ (by decide)) (checkLA_sound _ _ _ (by decide)))
     (checkWF_sound _ _ _ (by decide)) (checkLAFrom_sound _ _ _ _ (by decide))
+
+/-- …and the interrupted forms (batch size 1): the wallet is locked while block 1 is fetched — block 1's batch is
+    committed, block 2 is scanned by the resumed run; the 2nd FilterBlocks request (made by block 2's batch) fails —
+    block 1 stays, block 2 is scanned after the restart. -/
+example : committedAt 1 1 = 1 := by decide
+example : Complete [0] exChain
+    (recoverChain exInvalid 1 ((exChain.drop (committedAt 1 1)).length + 1)
+      (resurrect exInvalid
+        { recoverInterrupted exInvalid 1 (resurrect exInvalid (State.init 2 [0])) exChain (fun _ => false) 1 with window := 2 })
+      (exChain.drop (committedAt 1 1)) (fun _ => false) 0) :=
+  C16_complete_lock_interrupted exInvalid 2 1 [0] exChain 1 (fun _ => false) (fun _ => false)
+    (checkWF_sound _ _ _ (by decide)) (checkLA_sound _ _ _ (by decide))
+example : (recoverChainFail exInvalid 1 2 3 (resurrect exInvalid (State.init 2 [0])) exChain 0).map (·.2) = some 1 := by
+  decide
+example : ∀ st1, recoverChainFail exInvalid 1 2 (exChain.length + 1) (resurrect exInvalid (State.init 2 [0])) exChain 0 =
+      some (st1, 1) →
+    Complete [0] exChain
+      (recoverChain exInvalid 1 ((exChain.drop 1).length + 1) (resurrect exInvalid { st1 with window := 2 })
+        (exChain.drop 1) (fun _ => false) 0) :=
+  fun st1 h => C16_complete_after_failed_batch exInvalid 2 2 1 [0] exChain 2 st1 1 (fun _ => false) h
+    (checkWF_sound _ _ _ (by decide)) (checkLA_sound _ _ _ (by decide)) ((checkLA_sound _ _ _ (by decide)).from _)
 
 /-- The look-ahead hypothesis is tight: a jump of `W` beyond the next index (here: window 2, first payment at
     index 2) is outside it, and is indeed missed. -/
